@@ -169,7 +169,7 @@ Proof.
   intros H. unfold gconn_run, gspec_run. f_equal. unfold conn_params, spec_params. apply map_ext_in. intros e He.
   unfold g_conn in H. apply andb_prop in H. destruct H as [Hd H]. apply Nat.eqb_eq in Hd.
   rewrite forallb_forall in H. specialize (H e He). rewrite Hd.
-  destruct (gd e) as [[d [s|]]|]; try discriminate. apply Nat.leb_le in H.
+  destruct (gd e) as [[d [s|]]|]; try discriminate; [|reflexivity]. apply Nat.leb_le in H.
   replace (Nat.max 1 (Z.to_nat (round_half_even (sq (d / s))))) with (Nat.max (Z.to_nat (round_half_even (sq (d / s)))) 0) by lia.
   reflexivity.
 Qed.
